@@ -148,11 +148,13 @@ def monitor_derived(impl_case, out, info):
                 "R": [k(pos[i], pos[j]) + (diag[pos[i]] if i == j else 0) for i in range(n) for j in range(n)],
                 "M": [(2 if labs[pos[i]] == labs[pos[j]] else -1) * k(pos[i], pos[j]) for i in range(n) for j in range(n)],
                 "B": [k(bpos[i], bpos[j]) for i in range(2 * n) for j in range(2 * n)]}
+        want["X"] = [k(pos[i], pos[j]) * 16 // ((1 << labs[pos[i]]) * (1 << labs[pos[j]])) if (k(pos[i], pos[j]) * 16) % ((1 << labs[pos[i]]) * (1 << labs[pos[j]])) == 0 else None for i in range(n) for j in range(n)]
         want["P"] = want["K"]; want["rowR"] = want["R"][(n - 1) * n:]
-        names = {"K": "KernelMatrix", "R": "RegularizedKernelMatrix", "M": "ModifiedKernelMatrix", "P": "PrecomputedMatrix", "B": "BlockMatrix2x2", "rowR": "RegularizedKernelMatrix::row"}
+        names = {"K": "KernelMatrix", "R": "RegularizedKernelMatrix", "M": "ModifiedKernelMatrix", "P": "PrecomputedMatrix", "B": "BlockMatrix2x2", "X": "ExampleModifiedKernelMatrix", "rowR": "RegularizedKernelMatrix::row"}
         for key, w in want.items():
             try: got = [int(x) for x in d[key].split(",")]
             except Exception: return ["line %d: no output for %s" % (idx, names[key])]
+            if key == "X": got = [g if ww is not None else None for g, ww in zip(got, w)]
             if got != w: return ["line %d `%s`: %s entries differ from direct kernel evaluation under the current order" % (idx, l, names[key])]
     return []
 
